@@ -42,73 +42,82 @@ FirstVer(e) == IF Len(e.vers) >= 1 THEN e.vers[1] ELSE DefaultVersion
 
 (***************************************************************************)
 (* Message builders.  c = acting chain, pv = what the counterparty's state *)
-(* shows at proof height p.  strict = TRUE: only what a correct relayer    *)
-(* would send; FALSE: any pair of ends in any state (steps out of order).  *)
+(* shows at proof height p.                                                *)
+(*  own = TRUE : only for own ends in the state the step requires          *)
+(*  cp  = TRUE : only for counterparty ends in the required state that are *)
+(*               linked to the own end (name it as their counterparty)     *)
+(* (TRUE, TRUE)  = what a correct relayer sends;                           *)
+(* (FALSE, TRUE) = right counterparty end, own end in ANY state (acks and  *)
+(*                 confirms after closing / opening, repeated steps);      *)
+(* (FALSE, FALSE)= any pair of ends in any state (steps out of order).     *)
 (***************************************************************************)
 ConnInitR(S, c) ==
     IF Cur(S, c).nconn >= MaxConn THEN {} ELSE
     { [cl |-> ClientName(c), cpcl |-> ClientName(Cp(c)), pfx |-> OwnPrefix, ivers |-> VerByName(v), delay |-> d]
       : v \in IVERS, d \in DELAYS }
 
-ConnTryR(S, c, pv, p, strict) ==
+ConnTryR(S, c, pv, p, own, cp) ==
     IF Cur(S, c).nconn >= MaxConn THEN {} ELSE
     { [cl |-> pv.conns[n].cpcl, cpcl |-> pv.conns[n].cl, cpconn |-> n, pfx |-> OwnPrefix,
        cpvers |-> pv.conns[n].vers, delay |-> pv.conns[n].delay, ph |-> p]
-      : n \in ConnsIn(pv, IF strict THEN {"INIT"} ELSE AnySt) }
+      : n \in ConnsIn(pv, IF cp THEN {"INIT"} ELSE AnySt) }
 
-ConnAckR(S, c, pv, p, strict) ==
+ConnAckR(S, c, pv, p, own, cp) ==
     { [conn |-> x[1], ver |-> FirstVer(pv.conns[x[2]]), cpconn |-> x[2], ph |-> p]
-      : x \in { y \in ConnsIn(Cur(S, c), IF strict THEN {"INIT"} ELSE AnySt)
-                      \X ConnsIn(pv, IF strict THEN {"TRYOPEN"} ELSE AnySt) :
-                strict => pv.conns[y[2]].cpconn = y[1] } }
+      : x \in { y \in ConnsIn(Cur(S, c), IF own THEN {"INIT"} ELSE AnySt)
+                      \X ConnsIn(pv, IF cp THEN {"TRYOPEN"} ELSE AnySt) :
+                cp => pv.conns[y[2]].cpconn = y[1] } }
 
-ConnConfirmR(S, c, pv, p, strict) ==
+ConnConfirmR(S, c, pv, p, own, cp) ==
     { [conn |-> n, ph |-> p]
-      : n \in { m \in ConnsIn(Cur(S, c), IF strict THEN {"TRYOPEN"} ELSE AnySt) :
-                strict => LET f == ConnAt(pv, Cur(S, c).conns[m].cpconn) IN f.st = "OPEN" /\ f.cpconn = m } }
+      : n \in { m \in ConnsIn(Cur(S, c), IF own THEN {"TRYOPEN"} ELSE AnySt) :
+                cp => LET f == ConnAt(pv, Cur(S, c).conns[m].cpconn) IN f.st = "OPEN" /\ f.cpconn = m } }
 
 ChanInitR(S, c) ==
     IF Cur(S, c).nchan >= MaxChan THEN {} ELSE
     { [port |-> pp[1], ord |-> o, hops |-> <<n>>, cpport |-> pp[2], chver |-> v]
       : n \in DOMAIN Cur(S, c).conns, o \in ORDS, v \in CHVERS, pp \in PORTS \X PORTS }
 
-ChanTryR(S, c, pv, p, strict) ==
+ChanTryR(S, c, pv, p, own, cp) ==
     IF Cur(S, c).nchan >= MaxChan THEN {} ELSE
     { [port |-> pv.chans[x[2]].cpport, ord |-> pv.chans[x[2]].ord, hops |-> <<x[1]>>, cpport |-> pv.chans[x[2]].port, cpchan |-> x[2],
        cpver |-> pv.chans[x[2]].ver, ph |-> p]
-      : x \in { y \in (DOMAIN Cur(S, c).conns) \X ChansIn(pv, IF strict THEN {"INIT"} ELSE AnySt) :
-                strict => pv.chans[y[2]].hops = <<Cur(S, c).conns[y[1]].cpconn>> } }
+      : x \in { y \in (DOMAIN Cur(S, c).conns) \X ChansIn(pv, IF cp THEN {"INIT"} ELSE AnySt) :
+                cp => pv.chans[y[2]].hops = <<Cur(S, c).conns[y[1]].cpconn>> } }
 
-ChanAckR(S, c, pv, p, strict) ==
+ChanAckR(S, c, pv, p, own, cp) ==
     { [port |-> Cur(S, c).chans[x[1]].port, chan |-> x[1], cpchan |-> x[2], cpver |-> pv.chans[x[2]].ver, ph |-> p]
-      : x \in { y \in ChansIn(Cur(S, c), IF strict THEN {"INIT"} ELSE AnySt)
-                      \X ChansIn(pv, IF strict THEN {"TRYOPEN"} ELSE AnySt) :
-                strict => pv.chans[y[2]].cpchan = y[1] /\ pv.chans[y[2]].port = Cur(S, c).chans[y[1]].cpport } }
+      : x \in { y \in ChansIn(Cur(S, c), IF own THEN {"INIT"} ELSE AnySt)
+                      \X ChansIn(pv, IF cp THEN {"TRYOPEN"} ELSE AnySt) :
+                cp => pv.chans[y[2]].cpchan = y[1] /\ pv.chans[y[2]].port = Cur(S, c).chans[y[1]].cpport } }
 
-ChanConfirmR(S, c, pv, p, strict) ==
+ChanConfirmR(S, c, pv, p, own, cp) ==
     { [port |-> Cur(S, c).chans[n].port, chan |-> n, ph |-> p]
-      : n \in { m \in ChansIn(Cur(S, c), IF strict THEN {"TRYOPEN"} ELSE AnySt) :
-                strict => LET f == ChanAt(pv, Cur(S, c).chans[m].cpport, Cur(S, c).chans[m].cpchan) IN f.st = "OPEN" /\ f.cpchan = m } }
+      : n \in { m \in ChansIn(Cur(S, c), IF own THEN {"TRYOPEN"} ELSE AnySt) :
+                cp => LET f == ChanAt(pv, Cur(S, c).chans[m].cpport, Cur(S, c).chans[m].cpchan) IN f.st = "OPEN" /\ f.cpchan = m } }
 
-ChanCloseInitR(S, c, strict) ==
+ChanCloseInitR(S, c, own) ==
     IF ~CLOSE THEN {} ELSE
-    { [port |-> Cur(S, c).chans[n].port, chan |-> n] : n \in ChansIn(Cur(S, c), IF strict THEN {"INIT", "TRYOPEN", "OPEN"} ELSE AnySt) }
+    { [port |-> Cur(S, c).chans[n].port, chan |-> n] : n \in ChansIn(Cur(S, c), IF own THEN {"INIT", "TRYOPEN", "OPEN"} ELSE AnySt) }
 
-ChanCloseConfirmR(S, c, pv, p, strict) ==
+ChanCloseConfirmR(S, c, pv, p, own, cp) ==
     IF ~CLOSE THEN {} ELSE
     { [port |-> Cur(S, c).chans[n].port, chan |-> n, ph |-> p]
-      : n \in { m \in ChansIn(Cur(S, c), IF strict THEN {"INIT", "TRYOPEN", "OPEN"} ELSE AnySt) :
-                strict => ChanAt(pv, Cur(S, c).chans[m].cpport, Cur(S, c).chans[m].cpchan).st = "CLOSED" } }
+      : n \in { m \in ChansIn(Cur(S, c), IF own THEN {"INIT", "TRYOPEN", "OPEN"} ELSE AnySt) :
+                cp => ChanAt(pv, Cur(S, c).chans[m].cpport, Cur(S, c).chans[m].cpchan).st = "CLOSED" } }
 
 \* all relay messages of chain c built from pv at claimed height p
-RelayActs(S, c, pv, p, strict) ==
-         Acts(c, "ConnOpenTry", ConnTryR(S, c, pv, p, strict))
-    \cup Acts(c, "ConnOpenAck", ConnAckR(S, c, pv, p, strict))
-    \cup Acts(c, "ConnOpenConfirm", ConnConfirmR(S, c, pv, p, strict))
-    \cup Acts(c, "ChanOpenTry", ChanTryR(S, c, pv, p, strict))
-    \cup Acts(c, "ChanOpenAck", ChanAckR(S, c, pv, p, strict))
-    \cup Acts(c, "ChanOpenConfirm", ChanConfirmR(S, c, pv, p, strict))
-    \cup Acts(c, "ChanCloseConfirm", ChanCloseConfirmR(S, c, pv, p, strict))
+RelayActs2(S, c, pv, p, own, cp) ==
+         Acts(c, "ConnOpenTry", ConnTryR(S, c, pv, p, own, cp))
+    \cup Acts(c, "ConnOpenAck", ConnAckR(S, c, pv, p, own, cp))
+    \cup Acts(c, "ConnOpenConfirm", ConnConfirmR(S, c, pv, p, own, cp))
+    \cup Acts(c, "ChanOpenTry", ChanTryR(S, c, pv, p, own, cp))
+    \cup Acts(c, "ChanOpenAck", ChanAckR(S, c, pv, p, own, cp))
+    \cup Acts(c, "ChanOpenConfirm", ChanConfirmR(S, c, pv, p, own, cp))
+    \cup Acts(c, "ChanCloseConfirm", ChanCloseConfirmR(S, c, pv, p, own, cp))
+RelayActs(S, c, pv, p, strict) == RelayActs2(S, c, pv, p, strict, strict)
+\* right counterparty end, own end in the wrong state
+LinkedActs(S, c, pv, p) == RelayActs2(S, c, pv, p, FALSE, TRUE) \ RelayActs2(S, c, pv, p, TRUE, TRUE)
 
 LocalActs(S, c, strict) ==
          Acts(c, "ConnOpenInit", ConnInitR(S, c))
@@ -132,6 +141,8 @@ AllHeights(S, c) == 0..(S.ch[Cp(c)].h + 1)
 
 \* correct messages at stale / never verified heights
 AnyHeightRelay(S) == UNION { UNION { RelayActs(S, c, ProvAt(S, c, p), p, TRUE) : p \in AllHeights(S, c) } : c \in Chains }
+\* right counterparty end but own end in the wrong state, at heights the client holds
+LinkedRelay(S)    == UNION { UNION { LinkedActs(S, c, ProvAt(S, c, p), p) : p \in S.ch[c].cons } : c \in Chains }
 \* steps out of order, at heights the client holds
 LooseRelay(S)     == UNION { UNION { RelayActs(S, c, ProvAt(S, c, p), p, FALSE) : p \in S.ch[c].cons } : c \in Chains }
 LooseLocal(S)     == UNION { LocalActs(S, c, FALSE) : c \in Chains }
@@ -165,5 +176,5 @@ Mutants(S, a) == { [a EXCEPT ![x[1]] = x[2]] : x \in UNION { {f} \X Alph(S, a.c,
 MutBase(S) == HonestLocal(S) \cup HonestRelay(S)
 MutActs(S) == UNION { Mutants(S, a) : a \in MutBase(S) }
 
-Adversarial(S) == UpdateActs(S, TRUE) \cup AnyHeightRelay(S) \cup LooseRelay(S) \cup LooseLocal(S) \cup MutActs(S)
+Adversarial(S) == UpdateActs(S, TRUE) \cup AnyHeightRelay(S) \cup LinkedRelay(S) \cup LooseRelay(S) \cup LooseLocal(S) \cup MutActs(S)
 =============================================================================
